@@ -26,13 +26,69 @@
 (*                                                                         *)
 (* A class to be optimized: [name, m (its mapper kind in C05_Fresh),       *)
 (* args (do its handlers use extra arguments), stock (does it keep         *)
-(* CachedMapper.get_cache_key)].                                           *)
+(* CachedMapper.get_cache_key)] and optionally base (the stock mapper it   *)
+(* derives from) and ov (the handlers it overrides with marking bodies).   *)
+(*                                                                         *)
+(* Round 2 - METHOD COLLECTION.  optimize_mapper rebuilds the class from   *)
+(* source: for every attribute name of the class (dir) it needs the        *)
+(* definition of the function BOUND to that name and, where the            *)
+(* function's __name__ differs (a base-class alias such as map_product =   *)
+(* map_sum), emits a copy under the alias name.  Which function is bound   *)
+(* is Python's attribute lookup (C05_Fresh!OwnBody): the class's own       *)
+(* override serves only its own name, the aliases in the base keep the     *)
+(* base's function.  Collected(mode, cls, n) is the body the rebuilt class *)
+(* has for name n: mode "bound" is the design (= the code: the source of   *)
+(* the bound function is fetched through its __qualname__), mode "byname"  *)
+(* reuses whatever definition was already collected under the function's   *)
+(* __name__ - the own override then captures every alias of the base       *)
+(* function it shadows (negative control C05_OptGen_Buggy_CollectByName).  *)
 (*                                                                         *)
 (* OCall interprets a top-level call on an instance of the rewritten class *)
 (* and produces result + logged events, so that TLC can run the memo       *)
 (* machine on them exactly as for C05_MemoImpl.                            *)
 (***************************************************************************)
 EXTENDS C05_Pool
+
+\* ---- base-class alias tables: attribute name |-> __name__ of the function bound to it
+IdentAliases == [
+    map_product |-> "map_sum", map_floor_div |-> "map_quotient", map_remainder |-> "map_quotient",
+    map_right_shift |-> "map_left_shift", map_bitwise_xor |-> "map_bitwise_or",
+    map_bitwise_and |-> "map_bitwise_or", map_logical_not |-> "map_bitwise_not",
+    map_logical_or |-> "map_bitwise_or", map_logical_and |-> "map_bitwise_or",
+    map_max |-> "map_min", rec |-> "__call__"]
+CombineAliases == [
+    map_product |-> "map_sum", map_floor_div |-> "map_quotient", map_remainder |-> "map_quotient",
+    map_right_shift |-> "map_left_shift", map_bitwise_or |-> "map_sum", map_bitwise_xor |-> "map_sum",
+    map_bitwise_and |-> "map_sum", map_logical_not |-> "map_bitwise_not",
+    map_logical_and |-> "map_sum", map_logical_or |-> "map_sum", map_max |-> "map_sum",
+    map_min |-> "map_sum", map_tuple |-> "map_list", rec |-> "__call__"]
+CollectorAliases == [n \in {"map_variable", "map_wildcard", "map_dot_wildcard", "map_star_wildcard",
+                            "map_function_symbol"} |-> "map_constant"] @@ CombineAliases
+AliasesOf(cls) ==
+    IF "base" \notin DOMAIN cls THEN [n \in {} |-> ""]
+    ELSE CASE cls.base = "identity"  -> IdentAliases
+           [] cls.base = "combine"   -> CombineAliases
+           [] cls.base = "collector" -> CollectorAliases
+           [] OTHER -> [n \in {} |-> ""]
+ClsOv(cls) == IF "ov" \in DOMAIN cls THEN SeqToSet(cls.ov) ELSE {}
+\* __name__ of the function that attribute n of the class is bound to
+BoundName(cls, n) == IF n \in ClsOv(cls) THEN n
+                     ELSE IF n \in DOMAIN AliasesOf(cls) THEN AliasesOf(cls)[n] ELSE n
+\* the body attribute n has in the ORIGINAL class: << "own" | "base", function name >>
+BoundBody(cls, n) == << IF n \in ClsOv(cls) THEN "own" ELSE "base", BoundName(cls, n) >>
+\* the body the rebuilt class has for n
+Collected(mode, cls, n) ==
+    IF mode = "bound" THEN BoundBody(cls, n)
+    ELSE << IF BoundName(cls, n) \in ClsOv(cls) THEN "own" ELSE "base", BoundName(cls, n) >>
+\* every attribute name that matters: the handlers of all node kinds, rec and __call__
+NodeKinds == {"Var", "Const", "Cmp", "If", "Call", "CallKw", "Look", "CSE"}
+                \cup (NaryKinds \ {"Slice"}) \cup BinKinds \cup UnKinds
+HandlerNames == { MethodOf(t) : t \in NodeKinds } \cup {"rec", "__call__"}
+CollectionFaithful(mode, cls) == \A n \in HandlerNames : Collected(mode, cls, n) = BoundBody(cls, n)
+\* "" or the own function that serves node e in the rebuilt class
+RebuiltBody(mode, cls, e) ==
+    LET b == Collected(mode, cls, MethodOf(e.t)) IN IF b[1] = "own" THEN b[2] ELSE ""
+MkOf(cls) == [m |-> cls.m, scope |-> "all", ov |-> IF "ov" \in DOMAIN cls THEN cls.ov ELSE << >>]
 
 Opt(da, dk, ir, ic, ik) == [da |-> da, dk |-> dk, ir |-> ir, ic |-> ic, ik |-> ik]
 AllOpts == { Opt(a, b, c, d, e) : a, b, c, d, e \in BOOLEAN }
@@ -58,12 +114,11 @@ SemOf(seq) ==
     LET n == Len(seq)  P == StateAfter(seq, n)  o == seq[n].o  cls == seq[n].cls IN
     [sigA |-> ~o.da, sigK |-> ~o.dk, callA |-> ~P.ad, callK |-> ~P.kd, site |-> P.site,
      key |-> IF P.key = "call" THEN "call-" \o KeyExprOf(cls) ELSE P.key,
-     cls |-> cls]
+     cls |-> cls, collect |-> "bound"]
+SemOfMode(seq, mode) == [SemOf(seq) EXCEPT !.collect = mode]
 
 EffArgs(sem, a) == Args(IF sem.callA THEN a.pos ELSE << >>, IF sem.callK THEN a.kw ELSE << >>)
 SigFits(sem, a) == (sem.sigA \/ Len(a.pos) = 0) /\ (sem.sigK \/ Len(a.kw) = 0)
-
-ErrR(name) == [rk |-> "err", v |-> [k |-> "err", e |-> name, a |-> ""]]
 
 \* does computing the top-level key blow up, and with what
 KeyError(sem, a) ==
@@ -93,7 +148,7 @@ OHandler(sem, st, mk, e, a) ==
                  Go([tab |-> c.tab, evs |-> c.evs], i + 1, Append(rs, c.r))
         g == Go([tab |-> st.tab, evs |-> Append(st.evs, [ev |-> "H", k |-> k])], 1, << >>)
     IN [tab |-> g.s.tab, evs |-> Append(g.s.evs, [ev |-> "X", k |-> k, ok |-> TRUE]),
-        r |-> Combine(mk, e, a, g.rs)]
+        r |-> CombineBody(mk, e, a, g.rs, RebuiltBody(sem.collect, sem.cls, e))]
 
 OFull(sem, st, mk, e, a) ==
     LET ik == TopKey(sem, e, a) IN
@@ -111,7 +166,7 @@ OSite(sem, st, mk, e, a, t) ==
 
 \* one top-level call; mk is the UNOPTIMIZED class's meaning (the counterpart)
 OCall(sem, tab, e, a) ==
-    LET mk == [m |-> sem.cls.m, scope |-> "all"]
+    LET mk == MkOf(sem.cls)
         k  == KeyOf("ideal", e, a)
         f  == Fresh(mk, e, a)
         ke == KeyError(sem, a)
